@@ -146,19 +146,30 @@ theorem C35_prefixed (env : Env O D) (hx : HexLower env) (p ws1 ws2 : Str) (dg :
 theorem C35_unprefixed_verbatim (h : Str) (hc : ':' ∉ h) : unprefix genU h = h := by
   rw [genU_eq]; exact unprefix_of_no_colon h hc
 
-/-- The in-place overwrite of `target.Hashes` is invisible to later verifications: unprefixing is idempotent. -/
-theorem C35_alias_idempotent (hs : List Str) :
-    (unprefixedHashes genU (unprefixedHashes genU hs).2).1 = (unprefixedHashes genU hs).1 := by
-  rw [genU_eq]; exact unprefixedHashes_idem hs
+/-- Since fix 656076b `UnprefixedHashes` works on a copy: `target.Hashes` holds what the BUILD file declared, before and
+    after a verification (the error message prints the declared values as written). -/
+theorem C35_hashes_untouched (hs : List Str) : (unprefixedHashes genU hs).2 = hs := by
+  rw [genU_eq]; rfl
 
-/-- …but it IS visible to everything that hashes `target.Hashes` after the check has run in the same process: the
-    post-build rule hash written into the stamp of a target the build can modify (post-build function, output_dirs) and
-    the runtime rule hash.  `R` stands for the rule hash as a function of the declared list (injective: C08).  The stamp
-    agrees with what the next process expects exactly when no declared value carries a prefix — otherwise
-    `needsBuilding(postBuild)` is true on every run (observed on the real binary: a genrule with `output_dirs` and
-    `hashes = ["sha256: …"]` re-runs its action on every `plz build`; a C03 matter, reported, not a C35 failure). -/
-theorem C35_alias_observable {α : Type} (R : List Str → α) (hR : Function.Injective R) (hs : List Str) :
-    R (unprefixedHashes genU hs).2 = R hs ↔ ∀ d ∈ hs, unprefix genU d = d := by
+/-- …so whatever hashes `target.Hashes` after the check has run in the same process (the post-build rule hash written
+    into the stamp of a target the build can modify, the runtime rule hash) sees the declared list. -/
+theorem C35_rule_hash_stable {α : Type} (R : List Str → α) (hs : List Str) : R (unprefixedHashes genU hs).2 = R hs := by
+  rw [C35_hashes_untouched]
+
+/-- Verifying twice gives the same unprefixed list, with or without the aliasing: unprefixing is idempotent. -/
+theorem C35_alias_idempotent (b : Bool) (hs : List Str) :
+    (unprefixedHashes { genU with alias := b } (unprefixedHashes { genU with alias := b } hs).2).1 =
+      (unprefixedHashes { genU with alias := b } hs).1 := by
+  rw [genU_eq]; exact unprefixedHashes_idem b hs
+
+/-- The defect fixed by 656076b, as a theorem about the ALIASING variant of the facts (`hashes := target.Hashes[:]`): the
+    overwrite never changed a verification decision (previous theorem) but it was visible to the rule hash computed
+    afterwards.  `R` = the rule hash as a function of the declared list (injective: C08).  The stamp agreed with what the
+    next process expects exactly when no declared value carried a prefix — otherwise `needsBuilding(postBuild)` stayed
+    true (observed on the pre-fix binary: a genrule with `output_dirs` and `hashes = ["sha256: …"]` re-ran its action on
+    every `plz build`). -/
+theorem C35_fixed_alias_observable {α : Type} (R : List Str → α) (hR : Function.Injective R) (hs : List Str) :
+    R (unprefixedHashes { genU with alias := true } hs).2 = R hs ↔ ∀ d ∈ hs, unprefix genU d = d := by
   rw [genU_eq]
   simp only [unprefixedHashes, UFacts.asCoded, if_true]
   constructor
